@@ -189,14 +189,14 @@ def with_bigio(cls):
     def oracle(self, case, prog, ri):
         if not big(case):
             return own['oracle'](self, case, prog, ri)
-        return [dict(index=i, op=list(op), what='multi-megabyte file (%s): %s' % (op[1:], r))
+        return [dict(index=i, op=list(op), what='implementation-side-only case (%s): %s' % (op[1:], r))
                 for i, (op, r) in enumerate(zip(prog, ri)) if r != 'OK']
 
     def nontrivial(self, case, prog, ri):
         return True if big(case) else own['nontrivial'](self, case, prog, ri)
 
     def classify(self, case, prog, ri):
-        return {('long_runs:%s' % a[0] if str(a[0]).startswith('span-') else 'multi_megabyte_file:%s:%s' % (a[0], 'keys' if a[3] else 'plain')): 1 for a in case['bigio']} if big(case) else own['classify'](self, case, prog, ri)
+        return {('long_runs:%s' % a[0] if str(a[0]).startswith('span-') else 'large_graph:%s' % a[0] if str(a[0]).startswith('dag-') else 'multi_megabyte_file:%s:%s' % (a[0], 'keys' if a[3] else 'plain')): 1 for a in case['bigio']} if big(case) else own['classify'](self, case, prog, ri)
 
     def shrink_candidates(self, case):
         if big(case):
@@ -209,5 +209,5 @@ def with_bigio(cls):
     cls.program, cls.oracle, cls.nontrivial, cls.classify, cls.shrink_candidates = program, oracle, nontrivial, classify, shrink_candidates
     cls.obs = set(cls.obs) | {'bigio'}
     cls.rule = cls.rule + (' PLUS implementation-side-only cases (multi-megabyte files, runs of 150 000 instants at epoch-size '
-                           'instants): sizes the list-based model cannot run, decided by the oracle alone (interval arithmetic / row counts).')
+                           'instants, graphs of 1 200 nodes): sizes the list-based model cannot run, decided by the oracle alone (interval arithmetic / row counts).')
     return cls
